@@ -876,7 +876,7 @@ func main() {
 	r.Set("explorations", tags)
 	ev.Parallel(len(jobs), runtime.NumCPU(), func(i int) { jobs[i].run() })
 
-	r.Rule("explicit-state BFS per (runtime, extendable message, extension set, value pair): alphabet Set(e,v1) Set(e,v2) Clear(e) for every e of the set + ClearAll, " +
+	r.Rule("explicit-state BFS per (runtime, extendable message, extension set, value pair): every second subject of each runtime is first shown to csproto as a typed nil pointer (MsgType, HasExtension) so that whatever csproto remembers per Go type is formed from a nil value; alphabet Set(e,v1) Set(e,v2) Clear(e) for every e of the set + ClearAll, " +
 		"every op applied in every reachable state by replaying the state's history on a fresh message through csproto and applying the op; dedup on (model, reflection-only encoding of the real message); " +
 		"after every transition and for EVERY declared extension: csproto Has/Get/Range == model == owning runtime's API, twin message driven by the runtime API is identical, encoding holds exactly the set field numbers; " +
 		"in every state: Range with early callback error, ExtensionFieldNumber, csproto/runtime Marshal x csproto/runtime Unmarshal, every accessor with the same extension's descriptor of every other runtime, a dynamicpb extension type, nil, 42, \"x\"")
